@@ -46,6 +46,10 @@ var ModSeeds = []string{
 // retract block that carries a comment of its own, which is the rationale of the lines that have none.
 // The set/map model of C08 does not define how a block comment is inherited, so C08 leaves them out.
 var ModSeedsTypedOnly = []string{
+	// directives that are usually single lines, in block form (the syntax allows it)
+	"module (\n\texample.com/m\n)\n",
+	"module (\n\texample.com/m // s0\n)\n\nrequire a.com/x v1.0.0\n",
+	"module (\n\texample.com/m\n)\n\ngodebug (\n\tpanicnil=1\n)\n",
 	"module example.com/m\n\ngo 1.20\n\n// all bad\nretract (\n\tv1.0.0 // own\n\tv1.1.0\n)\n",
 	"module example.com/m\n\n// published by mistake\nretract (\n\t[v1.0.0, v1.1.0]\n\tv1.3.0\n)\n\nretract v1.4.0 // s1\n",
 }
